@@ -353,7 +353,7 @@ def run_history(scn):
             if cmd == "git":
                 for a in st["ops"]:
                     if a[0] == "checkout":
-                        P.git(root, "checkout", "-q", "--detach", commits[a[1]])
+                        P.git(root, "checkout", "-q", "-f", "--detach", commits[a[1]])
                     elif a[0] == "dirty":
                         with open(os.path.join(root, "f.txt"), "a") as f:
                             f.write("dirty\n")
